@@ -1,6 +1,7 @@
 """C06 - subjects deliver each item once, in order, to exactly the current subscribers."""
 import itertools
 from common import *
+import xcheck
 import ileave
 
 VARIANTS = ["local", "threads", "mr_item", "mr_err", "mr_both"]
@@ -68,7 +69,8 @@ def run(tier, seed, replay=None):
     if not build_stage(rep):
         return rep.finish()
     cases = load_replay_case(replay) if replay else make_cases(tier, rng) + ileave.cases("subject", tier, rng, "is")
-    correspond(rep, "C06", cases, "C06_subject_refines")
+    res = correspond(rep, "C06", cases, "C06_subject_refines")
+    xcheck.cross_check(rep, "C06", cases, res, 40 if tier == "quick" else 400)
     c = rep.coverage
     hist = {}
     for _, _, t in cases:
